@@ -2,7 +2,7 @@
    Only statements closed by `exact <lemma>` and their Print Assumptions.
    report lists are compared for equality as lists (pre-order of the file, one entry per call). *)
 From TL Require Import Lib.Base Lib.GenTypes Model.RustSafetyTypes Model.RustSafetySpec Gen.RustSafetyGen Model.RustSafety
-     Model.RustSafetyRun Actual.RustSafetyActual Proofs.RustSafetyWalk Proofs.RustSafetyCtx Proofs.RustSafetyEmit Proofs.RustSafetyMain Proofs.RustSafetyPlain.
+     Model.RustSafetyRun Actual.RustSafetyActual Proofs.RustSafetyWalk Proofs.RustSafetyCtx Proofs.RustSafetyEmit Proofs.RustSafetyMain Proofs.RustSafetyPlain Proofs.RustSafetyAttr Proofs.RustSafetyAttrCode.
 
 (* 1. unwrap-abuse: for every quirk vector whose relevant flags are off, every configuration and every
       file, the model reports exactly every .unwrap() — and every .expect() when allow_expect is off —
@@ -106,6 +106,20 @@ Theorem C17_switch_clone_off : forall ls c file,
 Proof. exact switch_clone_off. Qed.
 Print Assumptions C17_switch_clone_off.
 
+(* 6b. the `enabled` option of each linter (read by _should_analyze in front of the analyzer; the field it reads is the
+      documented key with the documented default): switched off, model - under every quirk vector - and specification report nothing *)
+Theorem C17_switch_enabled : forall q ls c file,
+  (opt (c_unwrap c) "enabled" true = false -> unwrap_report q ls c file = [] /\ spec_unwrap_report ls c file = []) /\
+  (opt (c_clone c) "enabled" true = false -> clone_report q ls c file = [] /\ spec_clone_report ls c file = []) /\
+  (opt (c_blocking c) "enabled" true = false -> blocking_report q ls c file = [] /\ spec_blocking_report ls c file = []).
+Proof. exact switch_enabled. Qed.
+Print Assumptions C17_switch_enabled.
+
+Theorem C17_enabled_keys : forall o,
+  enabled_of unwrap_cfg o = opt o "enabled" true /\ enabled_of clone_cfg o = opt o "enabled" true /\ enabled_of blocking_cfg o = opt o "enabled" true.
+Proof. exact enabled_keys. Qed.
+Print Assumptions C17_enabled_keys.
+
 (* 7. the documented option names and defaults are the ones the code reads; the documented tables are the code's *)
 Theorem C17_documented_tables :
   blocking_fs_functions = fs_functions /\ blocking_net_types = net_types /\ async_wrapper_functions = wrapper_names /\
@@ -123,6 +137,37 @@ Theorem C17_blocking_msg_only : forall q ls c file,
   map erase_msg (blocking_report q ls c file) = map erase_msg (blocking_report (msg_off q) ls c file).
 Proof. exact blocking_msg_erased. Qed.
 Print Assumptions C17_blocking_msg_only.
+
+(* 9. attributes.  The specification reads an attribute from its text (tokeniser + path + cfg predicate in Kleene logic,
+      Model/RustSafetySpec.v); the documented vocabulary and the look-alikes get the listed verdicts *)
+Theorem C17_attr_semantics :
+  forallb (fun e => Bool.eqb (attr_is_test_fn (fst e)) (fst (snd e)) && Bool.eqb (attr_is_cfg_test (fst e)) (snd (snd e)) && attr_wf (fst e))
+          attr_catalogue = true.
+Proof. exact attr_catalogue_agrees. Qed.
+Print Assumptions C17_attr_semantics.
+
+(* for ALL attribute texts: whatever marks a test function or test-only configuration mentions the identifier `test`, so the
+   code's `"test" in text` never misses one (the finding q_test_attr_substring errs towards exemption only): with that
+   flag on, every function the specification takes for test code is a test context of the faithful model *)
+Theorem C17_test_attr_mentions_test : forall t, attr_marks_test_fn t = true -> contains test_attr_needle t = true.
+Proof. exact marks_test_fn_mentions_test. Qed.
+Print Assumptions C17_test_attr_mentions_test.
+
+Theorem C17_test_fn_never_missed : forall q pre a nm,
+  q_test_attr_substring q = true -> fn_is_test pre = true -> is_test_context q (own_frame (KFn pre a nm)) = true.
+Proof. exact test_fn_never_missed. Qed.
+Print Assumptions C17_test_fn_never_missed.
+
+(* 10. the tree-sitter node-type names the source's helpers look at are the ones the model's parser-oracle side was written for *)
+Theorem C17_grammar_names :
+  use_ident_type = node_type (KId "") /\ clone_receiver_ident_type = node_type (KId "") /\
+  wrapper_ident_type = "identifier" /\ wrapper_scoped_type = "scoped_identifier" /\ call_path_type = "scoped_identifier" /\
+  async_modifiers_type = "function_modifiers" /\ async_token_type = "async" /\
+  unwrap_field_expr_type = "field_expression" /\ unwrap_field_ident_type = "field_identifier" /\
+  clone_field_expr_type = "field_expression" /\ clone_field_ident_type = "field_identifier" /\
+  line_context_strips = true.
+Proof. exact grammar_names. Qed.
+Print Assumptions C17_grammar_names.
 
 (* non-vacuity: a file in the domain, outside every defect class (file_plain) for all three linters, with test and
    non-test code, a loop, an async fn and a wrapper, on which the specification reports calls with their messages *)
